@@ -4,12 +4,15 @@
 (* The output directory holds, for every file the generator would write, one of:            *)
 (*   "same"     identical bytes            "missing"  no such file                          *)
 (*   "altered"  some byte changed          "crlf"     only LF -> CRLF changed (text files)  *)
+(*   "truncated" / "extended" / "empty"    the length differs, the common part does not      *)
 (* plus possibly unrelated extra files.  A check run must succeed exactly when every file    *)
 (* is "same", must say so when the only differences are line endings, and must leave the     *)
 (* directory exactly as it found it.                                                         *)
 EXTENDS Naturals, Sequences, FiniteSets, TLC
 
-States == {"same", "missing", "altered", "crlf"}
+\* "truncated" (a proper prefix), "extended" (the expected bytes followed by more) and "empty" differ from the expected
+\* contents in length only: no byte of the common part changed
+States == {"same", "missing", "altered", "crlf", "truncated", "extended", "empty"}
 
 AllSame(fs) == \A i \in 1..Len(fs) : fs[i] = "same"
 OnlyLineEndings(fs) == ~AllSame(fs) /\ \A i \in 1..Len(fs) : fs[i] \in {"same", "crlf"}
